@@ -23,33 +23,33 @@ import (
 )
 
 type GroupCfg struct {
-	Package string   `json:"package"` // directory relative to the repo root
-	Files   []string `json:"files"`   // harness files relative to the property dir
-	Init    []string `json:"init"`    // extra packages whose init is executed
-	Fn      string   `json:"fn"`      // regexp of entry functions (default ^Verif<ID>_)
-	Disable []string `json:"disable"` // intrinsics disabled for this group
-	Quick   string   `json:"quick"`   // regexp of entries run in the quick tier (default all)
-	Globals []string `json:"globals"` // globals that may be read zero-initialised
-	MaxPaths int     `json:"max_paths"`
-	Unwind   int     `json:"unwind"`
-	FanOut   int     `json:"fanout"`
-	MaxSteps int64   `json:"max_steps"`
+	Package    string   `json:"package"` // directory relative to the repo root
+	Files      []string `json:"files"`   // harness files relative to the property dir
+	Init       []string `json:"init"`    // extra packages whose init is executed
+	Fn         string   `json:"fn"`      // regexp of entry functions (default ^Verif<ID>_)
+	Disable    []string `json:"disable"` // intrinsics disabled for this group
+	Quick      string   `json:"quick"`   // regexp of entries run in the quick tier (default all)
+	Globals    []string `json:"globals"` // globals that may be read zero-initialised
+	MaxPaths   int      `json:"max_paths"`
+	Unwind     int      `json:"unwind"`
+	FanOut     int      `json:"fanout"`
+	MaxSteps   int64    `json:"max_steps"`
 	ZeroStubs  []string `json:"zero_stubs"`
-	SkipInit   bool     `json:"skip_init"` // do not run the package's own init; the harness sets the globals it needs
-	Selfcheck  bool     `json:"selfcheck"` // translation validation: sampled paths are re-run natively and observations compared
-	Strace     bool     `json:"strace"` // native replay under strace: real system-call paths are checked against the sandbox root
+	SkipInit   bool     `json:"skip_init"`  // do not run the package's own init; the harness sets the globals it needs
+	Selfcheck  bool     `json:"selfcheck"`  // translation validation: sampled paths are re-run natively and observations compared
+	Strace     bool     `json:"strace"`     // native replay under strace: real system-call paths are checked against the sandbox root
 	Instrument []string `json:"instrument"` // repo files (relative) that get Yield points (G2)
 }
 
 type PropCfg struct {
-	Property    string            `json:"property"`
-	Groups      []GroupCfg        `json:"groups"`
-	Bounds      map[string]string `json:"bounds"`
-	Assumptions []string          `json:"assumptions"`
-	Outside     []string          `json:"outside_claim"`
-	Granularity string            `json:"granularity"`
-	QuickBudgetS    int           `json:"quick_budget_s"`
-	ThoroughBudgetS int           `json:"thorough_budget_s"`
+	Property        string            `json:"property"`
+	Groups          []GroupCfg        `json:"groups"`
+	Bounds          map[string]string `json:"bounds"`
+	Assumptions     []string          `json:"assumptions"`
+	Outside         []string          `json:"outside_claim"`
+	Granularity     string            `json:"granularity"`
+	QuickBudgetS    int               `json:"quick_budget_s"`
+	ThoroughBudgetS int               `json:"thorough_budget_s"`
 }
 
 type KnownFinding struct {
